@@ -31,7 +31,8 @@ RULE = ("sequences of NOTIFY requests over 1..3 real services (variables of ALL 
         "ranges / allowed lists, names shared between services; accepted spellings incl. both offset signs, Z, space separator, "
         "+-HHMM / +-HH:MM, near-misses and out-of-range values): headers present/absent/wrong NT, NTS, SID routed / foreign / "
         "unrouted / missing; property sets of 0..7 children over 1..3 e:property elements plus foreign elements, namespaced and "
-        "unknown names, valid / unconvertible / out-of-range / not-allowed values, repeated elements; after each request the "
+        "unknown names, valid / unconvertible / out-of-range / not-allowed values, repeated elements, the same event delivered twice in a "
+        "row and A-B-A across events (byte-identical requests); after each request the "
         "status, every variable's value and updated_at of every service and the callbacks are compared and judged. "
         "non-trivial = a routed event that changes at least one variable")
 EXHAUSTIVE = {"quick": False, "thorough": False}
@@ -81,8 +82,9 @@ async def _run(recipe, lines, tags):
             await eh.async_unsubscribe(sid)
             lines.append(f"unroute {tok_str(sid)}")
         elif k == "notify":
-            _, nt, nts, sid, body, pad = op
+            _, nt, nts, sid, body, pad = op[:6]
             tick += 1
+            style = op[6] if len(op) > 6 and op[6] is not None else tick   # a fixed style makes a repeated event byte-identical
             c09env.TICK[0] = tick
             if sid is not None:
                 notified.add(sid)
@@ -93,7 +95,7 @@ async def _run(recipe, lines, tags):
                 del l[:]
             before = [c09env.state_line(i, s) for i, s in enumerate(svcs)]
             try:
-                st = await eh.handle_notify(c09env.notify_headers(nt, nts, sid, tick), c09env.render_body(body, pad, tick))
+                st = await eh.handle_notify(c09env.notify_headers(nt, nts, sid, style), c09env.render_body(body, pad, style))
                 res = f"status {int(st)}"
             except Exception as e:  # noqa: BLE001
                 res = "exc " + c09env.exc_tok(e)
@@ -261,6 +263,15 @@ def rand_recipe(rng, n_notifies):
             ops.append(["route", SIDS[i], i])
     for _ in range(n_notifies):
         ops.append(rand_notify(rng, svc_vars, routed))
+        c = rng.randrange(8)
+        if c < 2:            # the same event again, byte for byte: it must be applied and reported again (new updated_at, callback)
+            a = ops[-1] = ops[-1][:6] + [0]
+            ops.append(list(a))
+        elif c == 2:         # A-B-A across events
+            a = ops[-1] = ops[-1][:6] + [0]
+            b = rand_notify(rng, svc_vars, routed)[:6] + [0]
+            b[3] = a[3]
+            ops.extend([b, list(a)])
         if routed and rng.randrange(25) == 0:
             sid = rng.choice(list(routed))
             del routed[sid]
@@ -300,6 +311,14 @@ CORPUS = [
                          ["notify", NT_OK, NTS_OK, "uuid:s0", [P(("", "T", "2021-03-04T05:06:07+01:00"), ("", "Z", "2021-03-04T05:06:07"),
                                                                 ("", "W", "05:06:07 -0500"), ("", "F", "11"))], ""],
                          ["notify", NT_OK, NTS_OK, "uuid:s0", [P(("", "Z", "2021-03-04T05:06:07Z"), ("", "W", "05:06:07"), ("", "F", "nan"))], ""]]},
+    # round 3: the same property set twice in a row and A-B-A across events (byte-identical requests): every event is applied and
+    # reported — updated_at moves, the callback runs and lists the variable although its value did not change
+    {"vars": V2, "ops": [["route", "uuid:s0", 0],
+                         ["notify", NT_OK, NTS_OK, "uuid:s0", [P(("", "A", "10"), ("", "B", "x"))], "", 0],
+                         ["notify", NT_OK, NTS_OK, "uuid:s0", [P(("", "A", "10"), ("", "B", "x"))], "", 0],
+                         ["notify", NT_OK, NTS_OK, "uuid:s0", [P(("", "A", "20"))], "", 0],
+                         ["notify", NT_OK, NTS_OK, "uuid:s0", [P(("", "A", "10"), ("", "B", "x"))], "", 0],
+                         ["notify", NT_OK, NTS_OK, "uuid:s0", [], "", 0], ["notify", NT_OK, NTS_OK, "uuid:s0", [], "", 0]]},
     # foreign SID: the other service's variables with the same name stay untouched
     {"vars": V2, "ops": [["route", "uuid:s0", 0], ["route", "uuid:s1", 1], ["notify", NT_OK, NTS_OK, "uuid:s1", [P(("", "A", "-7"), ("", "E", "t"))], ""],
                          ["notify", NT_OK, NTS_OK, "uuid:s0", [P(("", "A", "7")), {"p": False, "kids": [["", "B", "y"]]}], ""]]},
